@@ -25,12 +25,12 @@ META = {
              "(template T4, files of two and three packets; thorough more): what reaches the pretty-printer without an index is exactly the list of packets Spec-XTCE decodes, in file order and with "
              "their values, and with a SYMBOLIC index i in [0, n+1] exactly the i-th of them or the out-of-range message.  DESCRIBE END TO END: the real describe-packets body on the real framer over a symbolic file of 1, 2 and 11 (thorough also 3, 10, 12) packets whose data "
              "lengths are symbolic 1..65536: the rows are exactly the packets in order (first five, ellipsis, last five beyond ten), each row carrying "
-             "that packet's own length, sequence count and APID.  With the framer stubbed: for every number of packets n = 0..13 (thorough 0..24) the real describe-packets row selection adds, in order, every packet exactly once "
+             "that packet's own length, sequence count and APID.  With the framer stubbed: for every number of packets n = 0..22 (thorough 0..30; beyond the elision threshold and beyond the default --max-items) the real describe-packets row selection adds, in order, every packet exactly once "
              "when n <= 10 and otherwise the first five, one ellipsis row and the last five; for every n and a symbolic index i in [-1, n+1] the real "
              "parse command shows exactly packet i when 0 <= i < n and prints the out-of-range message otherwise (negative indices are not part of "
              "the property and are not asserted on), and no exception escapes either command.",
     "trusted": "click / rich rendering (stubbed by recorders in the symbolic run, exercised for real in the per-path cross-validation); C10 for termination",
-    "bounds": {"quick": {"n": "0..13", "i": "symbolic in [-1, n+1]"}, "thorough": {"n": "0..24", "i": "symbolic in [-1, n+1]"}},
+    "bounds": {"quick": {"n": "0..22", "i": "symbolic in [-1, n+1]"}, "thorough": {"n": "0..30", "i": "symbolic in [-1, n+1]"}},
     "stubs": ["cli.ccsds_generator / cli.XtcePacketDefinition: yield n distinct tokens", "rich Table / console.print / pretty.pprint: recorders",
               "open(): a real empty temporary file"],
     "outside_claim": ["rendering by rich", "click argument parsing", "negative packet indices", "files with more than N packets"],
@@ -388,7 +388,7 @@ def make(job):
 
 
 def jobs(tier):
-    N = 13 if tier == "quick" else 24
+    N = 22 if tier == "quick" else 30          # beyond the elision threshold (10) AND beyond the default --max-items (20)
     return [{"name": "describe", "h": "describe", "params": {"N": N}, "split": 8, "chunk": 20, "must_reach": ["n0", "n10", "n11"]},
             {"name": "parse", "h": "parse", "params": {"N": N}, "split": 16, "chunk": 30, "must_reach": ["shown", "oor"]}] + \
         [{"name": "parse-cli-T4-9-10-skip-header-bytes-3", "h": "parse-cli", "params": {"template": "T4", "lens": [9, 10], "flagsets": [1], "skip": 3}, "split": 16, "chunk": 25,
